@@ -18,6 +18,14 @@ open Juniper.Gen.Heap Juniper.Model.Heap Juniper.Proofs.Heap Juniper.Proofs.Heap
 
 variable {α : Type}
 
+/-- **The regenerated facts hold for the present source**: `h.gen++` is executed unconditionally by
+`Push`, `Pop`, `RemoveAt` and `UpdateAt` (for `UpdateAt` only since the repair of D14). -/
+theorem genFacts_hold : genFacts = true := by decide
+
+/-- The iterator starts with `gen = -1`, captures `gen` and the slice at its first `Next`, and the
+mismatch branch panics. -/
+theorem iterFacts_hold : iterFacts = true := by decide
+
 /-- A fresh iterator captures the heap's generation and length at its first `Next`; later `Next`s
 on the unchanged heap keep them. -/
 theorem heapIter_first_next_captures (h : Heap α) (hif : iterFacts = true := by decide) :
